@@ -1,12 +1,25 @@
-// development binary for the contract area (C10, C18)
+// development binary for the contract area (C10, C18).
+// `vh-contract build-vrace` only builds the race-detector stress program (for bin/setup).
 package main
 
 import (
+	"fmt"
+	"os"
+
 	"verif/harness/suites/contract"
 	"verif/harness/vhlib"
 )
 
 func main() {
+	if len(os.Args) > 1 && os.Args[1] == "build-vrace" {
+		bin, err := contract.BuildVrace()
+		if err != nil {
+			fmt.Fprintln(os.Stderr, err)
+			os.Exit(1)
+		}
+		fmt.Println(bin)
+		return
+	}
 	s := vhlib.Suites{}
 	contract.Register(s)
 	vhlib.Main(s)
